@@ -29,7 +29,9 @@ import time
 
 ROOT = os.path.normpath(os.path.join(os.path.dirname(os.path.abspath(__file__)), '..'))
 COQ = os.path.join(ROOT, 'coq')
-REPO = os.environ.get('VERIF_REPO', '/repo')
+if not os.environ.get('VERIF_REPO'):
+    os.environ.pop('VERIF_REPO', None)      # an empty value means unset, also for the harness modules and children
+REPO = os.environ.get('VERIF_REPO') or '/repo'
 
 if os.environ.get('PYTHONHASHSEED') != '0':
     os.environ['PYTHONHASHSEED'] = '0'
